@@ -104,9 +104,12 @@ pub open spec fn interest(name: Seq<char>, macros: Seq<RustLogMacro>, k: int) ->
     # ---- macro_of_interest ------------------------------------------------------------------------------
     f = u.real_fn(RP, "macro_of_interest", scope=FINDER_SCOPE, props=("C11", "C17"))
     rules.sig(f, ret="r")
-    rules.r5_format(f, kinds={}, min_count=1)
+    rules.r5_format(f, kinds={}, min_count=0)
+    # std str predicates a comparison might be replaced by: given their meaning, so that a weaker test FAILS the contract
+    rules.r9_method_to_fn(f, "ends_with", "str_ends_with")
+    rules.r9_method_to_fn(f, "starts_with", "str_starts_with")
     # R9: `<&String> == <&str>` has no Verus spec; String: PartialEq<str> compares the text, so compare through as_str()
-    f.replace_all(r"\bmacro_name\s*==", "macro_name.as_str() ==", "R9", regex=True, min_count=1)
+    f.replace_all(r"\bmacro_name\s*==", "macro_name.as_str() ==", "R9", regex=True, min_count=0)
     f.ensures.append(("C11.filter", "r == interest(macro_name@, config.rust.log_macros@, config.rust.log_macros@.len() as int)"))
     # `for x in &V` -> `for x in it: V.iter()` (same iteration)
     kw = f.loops()[0]
@@ -146,6 +149,7 @@ pub open spec fn interest(name: Seq<char>, macros: Seq<RustLogMacro>, k: int) ->
     LINECOL = ("forall|j: int| 0 <= j < result@.len() ==> (#[trigger] result@[j]).position.line as int == line_of(inp, result@[j].position.character as int)"
                " && result@[j].position.column as int == col_of(inp, result@[j].position.character as int)")
     NMAC = "config.rust.log_macros@, config.rust.log_macros@.len() as int"
+    HAS_CONTAINER = bool(re.search(r"\blet\s+rule_ref_container_span\b", f.mbody))
     loops = f.loops()
     fors = [l for l in loops if l[0] == "for"]
     if len(fors) != 4:
@@ -187,10 +191,12 @@ pub open spec fn interest(name: Seq<char>, macros: Seq<RustLogMacro>, k: int) ->
         "forall|k: int| 0 <= k < kvp_spans@.len() ==> (#[trigger] kvp_spans@[k]).0.input() == inp && mlo <= kvp_spans@[k].0.lo() <= kvp_spans@[k].0.hi() <= mhi",
         "forall|k: int| 0 <= k < kvp_spans@.len() && (#[trigger] kvp_spans@[k]).1.is_some() ==> kvp_spans@[k].1.unwrap().input() == inp"
         " && mlo <= kvp_spans@[k].1.unwrap().lo() <= kvp_spans@[k].1.unwrap().hi() <= mhi",
-        "rule_ref_container_span.input() == inp && mlo <= rule_ref_container_span.lo() <= rule_ref_container_span.hi() <= mhi && is_boundary(inp, rule_ref_container_span.lo())",
+        # (only if the local still exists: invariants must not depend on an incidental temporary)
+        ("rule_ref_container_span.input() == inp && mlo <= rule_ref_container_span.lo() <= rule_ref_container_span.hi() <= mhi && is_boundary(inp, rule_ref_container_span.lo())"
+         " && rule_ref_container_span.lo() == ma.start") if HAS_CONTAINER else "true",
         # the statement passed the filters; its entries so far are those of the tree
         ("C11.filter,C14.where", "g == top.children[idx] && 0 <= idx < top.children.len() && g.rule == Rule::log_macro && g.children.len() >= 2 && g.children[0].rule == Rule::macro_name"
-         " && g.children[1] == ma && ma.rule == Rule::macro_args && rule_ref_container_span.lo() == ma.start"
+         " && g.children[1] == ma && ma.rule == Rule::macro_args && is_boundary(inp, ma.start)"
          " && !directive_before(inp, g.children[0].start, ignore_name()) && interest(decode_utf8(text(inp, g.children[0])), %s)" % NMAC),
         ("C11.filter,C13.kind,C14.where,C12.extract", "view_entries(result@) == tree_entries(top.children, inp, *config, idx)"),
         ("C05.where", LINECOL),
